@@ -220,5 +220,32 @@ PROPS["C06"] = {
     "assumptions": ["a consumer stops at the first error item (into_vec / the save_target loop do)"],
 }
 
+PROPS["C08"] = {
+    "package": "c08", "exe": "m_c08",
+    "rule": "names: every string of length <= 4 (quick) / <= 5 (thorough) over {/ . a \\ space ~ % e-acute} and random "
+            "names of length 6..40 through TargetName::new (raw -> resolved or refusal). Saves: one raw name per distinct "
+            "resolved form (700 sampled in quick), random long names and absolute names pointing at a unique location "
+            "outside the sandbox; per save a random choice of file-name prefix mode, pre-existing file at the destination, "
+            "and transfer fault (clean, bit flip, oversize, truncated, transport error at chunk k), for both "
+            "consistent-snapshot settings; the transport stream snapshots the whole sandbox tree (output directory three "
+            "levels deep, a bystander directory next to it) every time it is polled. Every save case is non-trivial.",
+    "exhaustive": {"quick": True, "thorough": True},
+    "explanation": "Theorems (Tough/Props/C08.lean): resolved names have only safe components; every file-system operation "
+                   "of a save is at or below the output directory (else refused before anything is touched); after ANY "
+                   "prefix of the save's operation trace the destination holds what it held before or the complete content "
+                   "with the recorded SHA-256 within the signed length; a failed save leaves every file as it was; a "
+                   "successful one leaves exactly the verified content. Correspondence: TargetName::new vs cleanName; "
+                   "save_target into a watched sandbox: result, sandbox tree between every two stream items and afterwards.",
+    "level_text": "Kernel-checked statements over the operation trace model (all names, all streams, all trace prefixes), "
+                  "differential runs with an observer between transport chunks.",
+    "level_note": "PARTIAL with respect to the runtime: that rename() is atomic and that a dropped NamedTempFile is unlinked "
+                  "are POSIX/tempfile behaviour, modelled not verified; 'no moment' is proved for trace prefixes and "
+                  "observed only at chunk boundaries. typed-path normalisation is transcribed, and checked exhaustively on "
+                  "short names by the correspondence.",
+    "trusted": ["modelled, not verified: typed-path 0.9 normalize/join, std::path join/parent/starts_with, tempfile::NamedTempFile, "
+                "POSIX rename/unlink, url::Url::join (the harness serves whatever path below /t/ the client asks for)"],
+    "assumptions": ["the temporary file name differs from the destination name and does not exist yet"],
+}
+
 _PENDING = "check under construction in this session (DESIGN.md §10 order of work); not claimed until it runs"
 NOT_APPLICABLE = {f"C{i:02d}": _PENDING for i in range(1, 21)}
